@@ -1297,3 +1297,17 @@ def run(chk: Check):
     _assets(chk)
     _mesh_life(chk)
     chk.cov["exhaustive"] = True
+
+
+# ---- growth beyond the listed property: the client/proxy inventory cache under message histories (InventoryCache.tla)
+_run_codecs = run
+
+
+def run(chk):
+    _run_codecs(chk)
+    from . import growth_inventorycache
+    if chk.tier == "quick":
+        common.growth(chk, "InventoryCache", growth_inventorycache.section, 3, 1, 2, 2, names=("a",), max_pairs=1500)
+    else:
+        common.growth(chk, "InventoryCache", growth_inventorycache.section, 3, 2, 2, 2, names=("a",),
+                      variants=("client", "proxy", "proxyNF", "nocache"), max_pairs=6000)
